@@ -148,6 +148,8 @@ def run_concat(case, rec):
                 h.collar = [5.0 + j, 6.0, 7.0]
                 expect.append((f"{hname}.collar", lambda r, hn=hname: [float(x) for x in hole(r, hn).collar.tolist()], [5.0 + j, 6.0, 7.0]))
 
+        held = []
+
         def session(w):
             # every operation of the session works on its own hole (three holes), so the expectations stay independent
             ops = [case["op"]] + [rng.choice(CONCAT_OPS[:-1]) for _ in range(min(case["extra"], 2))]
@@ -156,6 +158,14 @@ def run_concat(case, rec):
             for j, op in enumerate(ops):
                 do(op, w, j)
                 rec.see("concat-op:" + op)
+            # what the user still holds when the block ends
+            for nm in ("h0", "h1", "h2"):
+                hs = [x for x in w.get_entity(nm) if x is not None]
+                if hs:
+                    held.append(hs[0])
+                    kids = [c for c in hs[0].children if hasattr(c, "values")]
+                    if kids:
+                        held.append(kids[0])
 
         try:
             if variant in ("with-abort", "with-normal"):
@@ -196,6 +206,8 @@ def run_concat(case, rec):
         except Exception as exc:  # noqa: BLE001
             rec.fail("C11.invalid-file", op="concat:" + variant, cls="file", attr="unreadable", detail=f"{type(exc).__name__}: {exc}")
             return
+        writes_after_close(rec, held, "concat:" + variant)
+        del held
         try:
             for what, get, exp in expect:
                 try:
@@ -219,6 +231,34 @@ def run_concat(case, rec):
 
 class Abort(Exception):
     pass
+
+
+def writes_after_close(rec, held, where):
+    """Assignments through entities obtained before the close need the file: the dedicated error, never a silent success
+    (the value would sit in memory only and be gone after the next open)."""
+    from geoh5py.shared.exceptions import Geoh5FileClosedError
+
+    for ent in held:
+        ent = ent[1] if isinstance(ent, tuple) else ent
+        probes = [("name", lambda e=ent: setattr(e, "name", "assigned after close")), ("visible", lambda e=ent: setattr(e, "visible", not e.visible))]
+        if hasattr(type(ent), "collar") and getattr(ent, "_collar", None) is not None:
+            probes.append(("collar", lambda e=ent: setattr(e, "collar", [1.0, 2.0, 3.0])))
+        if isinstance(getattr(ent, "_values", None), np.ndarray) and ent._values.dtype.kind == "f":  # noqa: SLF001 - cached values only: the getter itself needs the file
+            probes.append(("values", lambda e=ent: setattr(e, "values", np.asarray(e._values) + 1.0)))  # noqa: SLF001
+        for attr, fn in probes:
+            rec.evals["C11.after-close-access"] += 1
+            try:
+                fn()
+            except Geoh5FileClosedError:
+                continue
+            except Exception as exc:  # noqa: BLE001
+                from ..core import exc_origin
+
+                if not exc_origin(exc)[0]:
+                    raise
+                rec.fail("C11.wrong-error", op=where, cls=type(ent).__name__, attr="set:" + attr, detail=f"assigning {attr} on a closed workspace raised {type(exc).__name__}: {str(exc)[:120]} instead of Geoh5FileClosedError", counted=True)
+                continue
+            rec.fail("C11.stale-after-close", op=where, cls=type(ent).__name__, attr="set:" + attr, detail=f"assigning {attr} through an entity of a closed workspace returned without an error", counted=True)
 
 
 def run_deferred(case, rec):
@@ -527,6 +567,7 @@ def judge(rec, e, ws, path, held, live, baseline, variant, state):
                     rec.fail("C11.wrong-error", op=variant, cls=type(ent).__name__, attr="fetch_children", detail=f"raised {type(exc).__name__}: {exc}")
     finally:
         twin.close()
+    writes_after_close(rec, [h for h in held if h[0] != e.model.root][:6], variant)
     del held
     # 5. re-opening restores full access to the same content
     try:
